@@ -90,12 +90,22 @@ structure PRef where
   ref : ORef
   deriving DecidableEq, Repr
 
+/-- the webhook TLS server secret as `getWebhookTLSCert` finds it -/
+inductive Tls where
+  | noRuntime   -- the revision type has no runtime (ConfigurationRevision)
+  | noName      -- spec.tlsServerSecretName is nil
+  | present     -- the secret exists and tls.crt is not empty
+  | missing     -- the secret does not exist
+  | empty       -- tls.crt is empty
+  deriving DecidableEq, Repr
+
 structure Parent where
   uid : Nat
   /-- label pkg.crossplane.io/package ("" when absent) -/
   label : String
   /-- the revision's own owner references -/
   owners : List PRef
+  tls : Tls := .noRuntime
   deriving DecidableEq, Repr
 
 /-- `GetPackageOwnerReference` followed by `pkgRef.Controller = ptr.To(false)` -/
@@ -129,7 +139,7 @@ def updateSub (p : Parent) (control : Bool) (cur des : Obj) : Except Err Obj :=
 /-! ### the API server -/
 
 inductive Phase where
-  | get | dry | real
+  | get | dry | real | tls
   deriving DecidableEq, Repr
 
 abbrev Fault := Nat → Phase → Outcome
@@ -215,6 +225,8 @@ inductive R (α : Type) where
 structure Desired where
   key : String
   body : Nat
+  /-- a CRD whose conversion strategy is Webhook: it can only be deployed with the CA bundle -/
+  needsCA : Bool := false
   deriving DecidableEq, Repr
 
 /-- a `status.objectRefs` entry. `kinded = false`: apiVersion and kind are empty, because
@@ -238,8 +250,8 @@ def liftW {α : Type} (a : α) : Store × WR → Store × R α
   | (s, .err e) => (s, .err e)
   | (s, .crash) => (s, .crash)
 
-/-- one goroutine of `validate` -/
-def validateOne (rejects : Obj → Bool) (fault : Fault) (p : Parent) (control : Bool)
+/-- one goroutine of `validate`, after `enrichControlledResource` -/
+def validateGo (rejects : Obj → Bool) (fault : Fault) (p : Parent) (control : Bool)
     (s : Store) (i : Nat) (d : Desired) : Store × R CD :=
   match fault i .get with
   | .crashBefore => (s, .crash)
@@ -262,6 +274,14 @@ def validateOne (rejects : Obj → Bool) (fault : Fault) (p : Parent) (control :
         let cd : CD := if control then ⟨sub, some { cur with owners := withPkg p cur.owners }⟩
                        else ⟨desiredObj d, some sub⟩
         liftW cd (apiUpdate rejects true (fault i .dry) s sub)
+
+/-- one goroutine of `validate`: `enrichControlledResource` refuses a CRD with webhook
+conversion strategy when there is no TLS bundle ("cannot deploy a CRD with webhook
+conversion strategy without having a TLS bundle"), before any API call -/
+def validateOne (rejects : Obj → Bool) (fault : Fault) (p : Parent) (control : Bool)
+    (s : Store) (i : Nat) (d : Desired) : Store × R CD :=
+  if control && d.needsCA && p.tls != .present then (s, .err .other)
+  else validateGo rejects fault p control s i d
 
 /-- combine the result of one goroutine with the result of the others: every
 goroutine runs (errgroup does not stop the others); a crash ends the process. -/
@@ -318,13 +338,37 @@ def pick {α : Type} (xs : List α) (order : List Nat) : List (Nat × α) :=
 def pickCD (cds : List (Nat × CD)) (order : List Nat) : List (Nat × CD) :=
   order.filterMap fun i => cds.find? fun c => c.1 = i
 
-/-- `APIEstablisher.Establish` -/
-def establish (rejects : Obj → Bool) (fault : Fault) (p : Parent) (control : Bool)
+/-- `getWebhookTLSCert` at the start of `validate` (only for a controlling parent
+with a runtime): one Get of the TLS server secret; a missing secret or an empty
+certificate is an error. -/
+def getCert (fault : Fault) (p : Parent) (control : Bool) : R Unit :=
+  if !control then .ok ()
+  else match p.tls with
+    | .noRuntime => .ok ()
+    | .noName => .ok ()
+    | t =>
+      match fault 0 .tls with
+      | .crashBefore => .crash
+      | .crashAfter => .crash
+      | .fail => .err .other
+      | .conflict => .err .other
+      | .ok => if t = .present then .ok () else .err .other
+
+/-- `validate` (goroutines) followed by `establish` -/
+def establishCore (rejects : Obj → Bool) (fault : Fault) (p : Parent) (control : Bool)
     (s : Store) (objs : List Desired) (vorder eorder : List Nat) : Store × R (List Ref) :=
   match validateAll rejects fault p control s (pick objs vorder) with
   | (s1, .ok cds) => establishAll rejects fault p control s1 (pickCD cds eorder)
   | (s1, .err e) => (s1, .err e)
   | (s1, .crash) => (s1, .crash)
+
+/-- `APIEstablisher.Establish` -/
+def establish (rejects : Obj → Bool) (fault : Fault) (p : Parent) (control : Bool)
+    (s : Store) (objs : List Desired) (vorder eorder : List Nat) : Store × R (List Ref) :=
+  match getCert fault p control with
+  | .err e => (s, .err e)
+  | .crash => (s, .crash)
+  | .ok _ => establishCore rejects fault p control s objs vorder eorder
 
 /-! ### ReleaseObjects -/
 
